@@ -189,6 +189,40 @@ fn c05_fmt_region_palette_level() {
     std::mem::forget(enc);
 }
 
+//# kind=complete tier=quick props=C05 fns=TTYEncoder::encode | a colour query is one OSC string: `ESC ]`, then `10;` for the foreground, `11;` for the background or `4;<index>;` for a palette entry, then `?`, then ST (`ESC \`) - in that order and nothing else; DeviceAttrs is DA1 `ESC [ c`
+#[kani::proof]
+#[kani::unwind(12)]
+fn c05_fmt_color_query() {
+    use kfmt_rec::*;
+    unsafe { REAL = false; }
+    let mut enc = TTYEncoder::new(caps());
+    let which: u8 = kani::any();
+    kani::assume(which < 4);
+    let index: usize = kani::any();
+    if which == 3 {
+        let r = enc.encode(&mut NullSink, TerminalCommand::DeviceAttrs);
+        assert!(r.is_ok());
+        unsafe { assert!(NF == 1 && NA == 0 && OTHERS == 0 && str_eq(FMTS[0], "\x1b[c")); }
+        std::mem::forget(r);
+    } else {
+        let name = match which { 0 => TerminalColor::Foreground, 1 => TerminalColor::Background, _ => TerminalColor::Palette(index) };
+        let r = enc.encode(&mut NullSink, TerminalCommand::Color { name, color: None });
+        assert!(r.is_ok());
+        unsafe {
+            assert!(NF == 4 && OTHERS == 0);
+            assert!(str_eq(FMTS[0], "\x1b]") && str_eq(FMTS[2], "?") && str_eq(FMTS[3], "\x1b\\"));
+            match which {
+                0 => assert!(str_eq(FMTS[1], "10;") && NA == 0),
+                1 => assert!(str_eq(FMTS[1], "11;") && NA == 0),
+                _ => assert!(str_eq(FMTS[1], "4;{};") && NA == 1 && ARGS[0] == index as i128),
+            }
+        }
+        std::mem::forget(r);
+    }
+    kani::cover!(which == 2);
+    std::mem::forget(enc);
+}
+
 // ---------------------------------------------------------------- C20: the 256-colour index that is emitted
 // LinColor::distance (sqrt over SIMD lanes in the rasterize crate) is replaced by a recorder that answers with free values:
 // which of the two candidates is closer is decided by the caller of this stub, the harness checks what is done with the answer.
